@@ -72,6 +72,12 @@ def run(ctx):
     except Exception as ex_:
         ctx.inst("C13.R6", "list-scalar#no-answer-before-dispatch", None, "the operator copies could not be located: %s" % ex_, None)
 
+    # ---------------- R7 a callback never runs under a heap guard
+    ctx.rule("C13.R7", "no RefCell guard of the heap is live while a callback runs, in the operator forms and in the higher-order built-ins alike (a callback that allocates would end the evaluation with 'already borrowed' in one form and succeed in its sibling)", floor=8)
+    from rules import c01 as c01_
+    for fn_, k_, live_, loc_ in c01_.callback_guard_sites(core):
+        ctx.inst("C13.R7", "%s#callback%d" % (fn_.replace("blots_core::", ""), k_), not live_, "heap guards that may be live during the callback: %s" % (live_ or "none"), loc_)
+
     # ---------------- R1 definition / this pairing
     ctx.rule("C13.R1", "at every FunctionDef::call site the function definition comes from get_function_def(F) and the `this` argument is that same value F (so a named function sees itself under its own name)", floor=16)
     per_ctx = {}
